@@ -129,7 +129,20 @@ func (Conservation) Check(t *explore.Transition) ([]V, bool) {
 		dL := new(big.Int).Sub(post.Ledger.BaseTotal(), pre.Ledger.BaseTotal())
 		dE := new(big.Int).Sub(post.Emission, pre.Emission)
 		if dL.Cmp(dE) != 0 {
-			out = append(out, V{Signature: "base|" + blockTypes(t.Cur),
+			// attribute the break: if the same block without its last transaction conserves, that transaction is the culprit
+			culprit := blockTypes(t.Cur)
+			if r := t.LastTx(); r != nil && t.Parent != nil && t.Parent.Final() != nil && t.Parent.Pre != nil {
+				pL := new(big.Int).Sub(t.Parent.Final().Ledger.BaseTotal(), t.Parent.Pre.Ledger.BaseTotal())
+				pE := new(big.Int).Sub(t.Parent.Final().Emission, t.Parent.Pre.Emission)
+				if pL.Cmp(pE) == 0 {
+					ty := "?"
+					if d, err := lab.Decode(r.Bytes); err == nil {
+						ty = d.Type.String()
+					}
+					culprit = fmt.Sprintf("tx:%s/%d", ty, r.Resp.Code)
+				}
+			}
+			out = append(out, V{Signature: "base|" + culprit,
 				Detail: fmt.Sprintf("base-coin total changed by %s but the emission counter by %s (height %d)", dL, dE, post.Height)})
 		}
 	}
